@@ -38,11 +38,11 @@ CASE_TIMEOUT = {'quick': 120, 'thorough': 300}
 
 
 def n_cases(tier):
-    return 640 if tier == 'quick' else 12000
+    return 640 if tier == 'quick' else 50000
 
 
 def asan_cases(tier):
-    return range(0, 120) if tier == 'quick' else range(0, 1500)
+    return range(0, 120) if tier == 'quick' else range(0, 4000)
 
 
 class Con(object):
